@@ -1,0 +1,31 @@
+// Copyright (C) 2026 Storj Labs, Inc.
+// See LICENSE for copying information.
+
+//go:build verif
+
+package drpcctx
+
+// Machine-checked contracts for this package (read by /verif/govc; comment-only).
+
+// Run registers the goroutine with the wait group before starting it; track marks it done only
+// after the callback returned.
+//@ func (*Tracker).Run
+//@   props C12
+//@   modifies *
+//@   check [C12.add-before-go] eventCount("call:(*WaitGroup).Add") == 1 && eventAfterLast("call:(*WaitGroup).Add", "go:")
+//@ func (*Tracker).track
+//@   props C12
+//@   modifies *
+//@   check [C12.done-after-callback] eventCount("dyn:cb") == 1 && eventCount("call:(*WaitGroup).Done") == 1 && eventAfterLast("dyn:cb", "call:(*WaitGroup).Done")
+//@ func (*Tracker).Wait
+//@   props C12
+//@   modifies *
+//@   check [C12.waits] eventCount("call:(*WaitGroup).Wait") == 1
+//@ func (*Tracker).Cancel
+//@   props C12
+//@   modifies *
+//@ func NewTracker
+//@   props C12
+//@   requires ctx != nil
+//@   modifies *
+//@   ensures [tracker] result != nil
